@@ -85,7 +85,7 @@ def run(ctx):
                 bad = [m for m in INTERIOR if m in f['ty']]
                 rep.check(not bad, 'R-C18-2', 'R-C18-2/field/%s.%s' % (path, f['name']), 'field %s.%s: %s has no interior mutability' % (path, f['name'], f['ty']),
                           'field %s.%s has interior mutability / hash randomisation: %s' % (path, f['name'], f['ty']), adt['span']['file'])
-    rep.floor('R-C18-2', 'ADT fields', nfields, 30)
+    rep.floor('R-C18-2', 'ADT fields', nfields, 20)
     tls = 0
     rnd_locals = []
     for b in fns:
